@@ -130,6 +130,7 @@ func replayDir(property string) string {
 var lastFailure struct {
 	sync.Mutex
 	path map[string]string
+	msg  map[string]string
 }
 
 func saveFailure(j *Journal, msg string) string {
@@ -148,8 +149,10 @@ func saveFailure(j *Journal, msg string) string {
 	lastFailure.Lock()
 	if lastFailure.path == nil {
 		lastFailure.path = map[string]string{}
+		lastFailure.msg = map[string]string{}
 	}
 	lastFailure.path[j.Test] = p
+	lastFailure.msg[j.Test] = msg
 	lastFailure.Unlock()
 	return p
 }
@@ -180,6 +183,7 @@ func checkProp(t *testing.T, property string, col *stats.Collector, prop func(c 
 		if t.Failed() {
 			lastFailure.Lock()
 			p := lastFailure.path[t.Name()]
+			fmsg := lastFailure.msg[t.Name()]
 			lastFailure.Unlock()
 			if p == "" && raceEnabled {
 				// the test was failed by the race detector, not by the oracle: the driver classifies
@@ -189,6 +193,11 @@ func checkProp(t *testing.T, property string, col *stats.Collector, prop func(c 
 			}
 			if p == "" {
 				p = "none"
+			}
+			if strings.HasPrefix(fmsg, "HARNESS-ERROR") {
+				// the case could not be set up or evaluated (infrastructure): inconclusive, never a violation
+				fmt.Fprintf(os.Stdout, "%s (case saved as %s)\n", firstLineOf(fmsg), p)
+				return
 			}
 			if hp, ok := harnessPanic.Load().(string); ok && hp != "" {
 				fmt.Fprintf(os.Stdout, "HARNESS-ERROR: panic inside the harness: %s (case saved as %s)\n", hp, p)
